@@ -255,7 +255,13 @@ def _worker(args: tuple[str, str, int, int, frozenset[str], float]) -> dict[str,
     prop.setup_worker()
     acc = _Acc()
 
+    crumb_dir = os.environ.get("LV_CRUMB_DIR")
+    crumb_path = os.path.join(crumb_dir, f"crumb{idx}.json") if crumb_dir else None
+
     def one(case: Any, origin: dict[str, Any]) -> None:
+        if crumb_path is not None:
+            with open(crumb_path, "w") as cfd:
+                cfd.write(jdump(case))
         try:
             res = run_case(prop, case, disabled)
         except CaseTimeout:
@@ -305,6 +311,60 @@ def _worker(args: tuple[str, str, int, int, frozenset[str], float]) -> dict[str,
         "extra": prop.extra_evidence(),
         "cut_short": time.time() >= deadline,
     }
+
+
+def _worker_main(args: tuple[Any, ...], out_path: str) -> None:
+    import pickle
+
+    try:
+        part = _worker(args)
+    except BaseException:  # noqa: BLE001
+        part = {"fatal": traceback.format_exc()[-4000:]}
+    with open(out_path + ".tmp", "wb") as fd:
+        pickle.dump(part, fd)
+    os.replace(out_path + ".tmp", out_path)
+
+
+def _fan_out(
+    prop_id: str, tier: str, seed: int, disabled: frozenset[str], deadline: float
+) -> list[dict[str, Any]] | None:
+    """Run the workers as plain processes; a worker that dies (segfault, OOM kill)
+    is reported as a harness error with the case it was running, never a hang."""
+    import pickle
+    import shutil
+    import tempfile
+
+    ctx = mp.get_context("fork")
+    tmp = tempfile.mkdtemp(prefix="lv-run-")
+    os.environ["LV_CRUMB_DIR"] = tmp
+    procs = []
+    try:
+        for i in range(NWORKERS):
+            out = os.path.join(tmp, f"part{i}.pkl")
+            pr = ctx.Process(target=_worker_main, args=((prop_id, tier, seed, i, disabled, deadline), out))
+            pr.start()
+            procs.append((i, pr, out))
+        parts: list[dict[str, Any]] = []
+        ok = True
+        for i, pr, out in procs:
+            pr.join()
+            if not os.path.exists(out):
+                ok = False
+                crumb = os.path.join(tmp, f"crumb{i}.json")
+                last = open(crumb).read()[:3000] if os.path.exists(crumb) else "?"
+                print(f"HARNESS-ERROR: worker {i} died with exit code {pr.exitcode}; last case: {last}",
+                      file=sys.stderr, flush=True)
+                continue
+            with open(out, "rb") as fd:
+                part = pickle.load(fd)
+            if "fatal" in part:
+                ok = False
+                print(f"HARNESS-ERROR: worker {i} failed:\n{part['fatal']}", file=sys.stderr, flush=True)
+                continue
+            parts.append(part)
+        return parts if ok else None
+    finally:
+        shutil.rmtree(tmp, ignore_errors=True)
 
 
 def _batch_seed(seed: int, idx: int, batch_no: int) -> int:
@@ -416,13 +476,9 @@ def run_property(prop_id: str, tier: str, seed: int) -> int:
         prop.budget_s(tier) if hasattr(prop, "budget_s") else (600 if tier == "quick" else 3600)
     )
     deadline = time.time() + budget
-    ctx = mp.get_context("fork")
-    with ctx.Pool(NWORKERS) as pool:
-        parts = pool.map(
-            _worker,
-            [(prop_id, tier, seed, i, disabled, deadline) for i in range(NWORKERS)],
-            chunksize=1,
-        )
+    parts = _fan_out(prop_id, tier, seed, disabled, deadline)
+    if parts is None:
+        return 2
 
     cases = sum(p["cases"] for p in parts)
     evaluations = sum(p["evaluations"] for p in parts)
